@@ -223,7 +223,7 @@ DynamicBitset& DynamicBitset::reset() noexcept( true)
 DynamicBitset& DynamicBitset::reset( size_t pos)
 {
 
-   if (pos > mData.size())
+   if (pos >= mData.size())
       mData.resize( (pos + 1) * 1.5);
 
    mData[ pos] = false;
